@@ -844,7 +844,11 @@ func progs(d int) []program {
 }
 
 func run(tier, unit string, r *vlib.Rec) {
-	_, lo, hi := vlib.ParseChunk(unit)
+	uname, lo, hi := vlib.ParseChunk(unit)
+	if uname == "compare" {
+		runCompare(r, lo, hi)
+		return
+	}
 	steps := allSteps()
 	ps := progs(depth(tier))
 	for i := lo; i < hi; i++ {
@@ -868,11 +872,21 @@ func run(tier, unit string, r *vlib.Rec) {
 	}
 }
 
-func plan(tier string) []string { return vlib.Chunks("programs", int64(len(progs(depth(tier)))), 400) }
+func plan(tier string) []string {
+	out := vlib.Chunks("programs", int64(len(progs(depth(tier)))), 400)
+	return append(out, vlib.Chunks("compare", int64(len(cmpCases())), 40)...)
+}
 
 func replay(c json.RawMessage) (string, string) {
 	var k kase
 	json.Unmarshal(c, &k)
+	if k.Depth == -1 {
+		cs := cmpCases()
+		if k.Prog >= len(cs) || cs[k.Prog].query() != k.Query {
+			return "", "case index does not match the query text"
+		}
+		return judgeCompare(cs[k.Prog])
+	}
 	steps := allSteps()
 	ps := progs(k.Depth)
 	if k.Prog >= len(ps) || ps[k.Prog].text(steps) != k.Query {
@@ -888,7 +902,7 @@ func main() {
 	vlib.Main(&vlib.Check{
 		ID:    "C16",
 		Level: "translation_validation",
-		Rule: "programs: every well-typed query of pipeline depth <=d (3 quick, 4 thorough) from a typed grammar over {Doc, Indi, Fam, role nodes, Name, Date, Node, string, number, bool, object} x list nesting: 34 accessors from a hand-written signature table, First/Last(0..4), Length, NodesWithTagPath (6 tag paths), Only over 7 accessor chains x 6 operators x numeric/text/mixed constants, 3 object constructions; plus variable forms (definition, a variable defined through another variable, unused definition) and Combine(V,V) / Combine(V,V)|Length on every program of depth <=2; each rendered to text and evaluated by the real engine on 6 documents, and by the reference interpreter (Go closures calling the gedcom API directly: map over lists in order, prefix/suffix, len, order-preserving filter with the documented comparison rule, concatenation, gedcom.NodesWithTagPath, substitution for variables). " +
+		Rule: "programs: every well-typed query of pipeline depth <=d (3 quick, 4 thorough) from a typed grammar over {Doc, Indi, Fam, role nodes, Name, Date, Node, string, number, bool, object} x list nesting: 34 accessors from a hand-written signature table, First/Last(0..4), Length, NodesWithTagPath (6 tag paths), Only over 7 accessor chains x 6 operators x numeric/text/mixed constants, 3 object constructions; plus variable forms (definition, a variable defined through another variable, unused definition) and Combine(V,V) / Combine(V,V)|Length on every program of depth <=2; plus the comparison table: every operator x every constant of a 36-operand set (signed, leading dot/zero/plus, exponent, numeric-looking text, both cases, empty; quoted and as number token) against all 36 operands as values; each rendered to text and evaluated by the real engine on 6 documents, and by the reference interpreter (Go closures calling the gedcom API directly: map over lists in order, prefix/suffix, len, order-preserving filter with the documented comparison rule, concatenation, gedcom.NodesWithTagPath, substitution for variables). " +
 			"Non-trivial = (program with >=1 step, document) pairs where both sides produce a value and agree; distinct by (query text, document).",
 		Assumptions: []string{
 			"results are compared after JSON normalisation (what the json formatter prints); an empty list and null are the same 'nothing'",
